@@ -962,6 +962,9 @@ func (i Info16) Classes() []string {
 	if i.Over64 {
 		c = append(c, "prefix_exceeds_64_bits")
 	}
+	if w := ShiftWord(i.Groups); w != 0 {
+		c = append(c, fmt.Sprintf("prefix_of_2^%d/7_groups_shift_counter_boundary", w))
+	}
 	switch {
 	case i.Groups >= 11:
 		c = append(c, "prefix_groups_ge_11")
